@@ -3,7 +3,7 @@
     Models: Model/Agg.v, Model/Bucket.v; proofs: Proofs/AggProofs.v, Proofs/BucketProofs.v. *)
 From Coq Require Import ZArith NArith List Permutation.
 From Snel Require Import Base.Bytes Base.Civil Model.Order Model.Bucket Model.Agg
-     Proofs.AggProofs Proofs.AggPipelineProofs Proofs.BucketProofs.
+     Proofs.AggProofs Proofs.AggPipelineProofs Proofs.AggSpecProofs Proofs.BucketProofs.
 Import ListNotations.
 Open Scope Z_scope.
 
@@ -31,6 +31,21 @@ Theorem C09_total_is_wrapped_sum : forall l,
   /\ (in_i64 (zsum (cell_ints l)) -> finalize (run MTotal l) = FInt (zsum (cell_ints l))).
 Proof. exact (fun l => conj (total_is_wrapped_sum l) (total_exact_when_fits l)). Qed.
 Print Assumptions C09_total_is_wrapped_sum.
+
+(** On an integer column (Int64 cells and nulls; it converts the same way under every batching)
+    the metrics are the typed ones: rows, non-null values, wrap64 of the sum, (sum, count),
+    least and greatest value.  COUNT UNIQUE is not among them (class CountUniqueTypedBatch). *)
+Theorem C09_int_column_metrics : forall vs, Forall int_or_null vs ->
+  let cs := to_cells vs in
+  let xs := ints_of vs in
+  run MCountAll cs = ACount (wrap_i64 (Z.of_nat (length vs)))
+  /\ run MCountField cs = ACount (wrap_i64 (Z.of_nat (length xs)))
+  /\ run MTotal cs = ASum (wrap_i64 (zsum xs))
+  /\ run MAvg cs = AAvg (wrap_i64 (zsum xs)) (wrap_i64 (Z.of_nat (length xs)))
+  /\ run MMin cs = AMin (zmin_list xs) None
+  /\ run MMax cs = AMax (zmax_list xs) None.
+Proof. exact int_column_metrics. Qed.
+Print Assumptions C09_int_column_metrics.
 
 (** What the coordinator merges are snapshots: for MIN, a part that holds only nulls breaks the law. *)
 Theorem C09_agg_partition_refuted :
@@ -73,6 +88,15 @@ Theorem C09_pipeline_equals_fold : forall p parts k,
   option_map (map finalize) (lookup k (pipeline p parts)) = spec_group p k (concat parts).
 Proof. exact pipeline_equals_fold. Qed.
 Print Assumptions C09_pipeline_equals_fold.
+
+(** The sink as it is run (batch by batch, columnar or row path) has a single possible output,
+    the [flow_rows] of the theorems above, unless the plan is ungrouped and the columnar path keys
+    its aggregators with a different pre-hash (the known class of the lost-partial defect). *)
+Theorem C09_flow_alts_outside_known : forall p ng nf batches,
+  ~ UngroupedMixedBatchPaths p ->
+  flow_alts p ng nf batches = [flow_rows p ng nf batches].
+Proof. exact flow_alts_outside_known. Qed.
+Print Assumptions C09_flow_alts_outside_known.
 
 (** LIMIT / OFFSET select whole groups (metrics untouched) out of a permutation of all groups. *)
 Theorem C09_limit_caps_groups : forall (V : Type) p limit offset (groups : list (gkey * V)),
